@@ -4,3 +4,5 @@ import "verifharness/core"
 
 func c01Truncation(w *core.WorkerCtx) {}
 func c10Genesis(w *core.WorkerCtx)    {}
+func c02Truncation(w *core.WorkerCtx) {}
+func c06Truncation(w *core.WorkerCtx) {}
